@@ -1,34 +1,46 @@
 /-!
-# A tiny heap model of who shares a value with whom
-(`cache/l1cache.go` cloneCacheNodeValue / materializeCacheValue, `btree/node.go` CopyTo,
-`btree/btree.go` GetCurrentValue, `common/noderepository.backend.go` get,
-`common/itemactiontracker.go` Get, `Transaction.populateMru`)
+# A tiny heap model of who shares a value — and a node — with whom
+(`cache/l1cache.go` cloneCacheNodeValue / materializeCacheValue / GetNodeFromMRU / GetNode / SetNode /
+SetNodeToMRU, `btree/node.go` CopyTo / Clone, `btree/btree.go` GetCurrentValue / unfetchCurrentValue,
+`common/noderepository.backend.go` get, `common/itemactiontracker.go` Get, `Transaction.populateMru`)
 
 Go's aliasing rules are transcribed by hand:
 
-* a value is an ADDRESS; `heap` maps addresses to contents (an abstract number);
-* one store whose items all sit in one node.  `disk` is the node blob (key ↦ content) — or, for a store
-  whose values really live in value blobs (`vnf`: actively persisted and updated once), the value blobs;
-* `l1` is the process-wide L1 entry of that node: key ↦ address.  `SetNode`/`SetNodeToMRU` store
-  `CloneMetaData()` = `CopyTo` into a new node: the slot STRUCTS are copied, the `Value *TV` pointers
-  are not — the cached node shares every value cell with the node it was cloned from;
-* `load` (first touch of the node in a transaction, `nodeRepositoryBackend.get`): on an L1 hit
-  `materializeCacheValue` = `CopyTo(target)`: the transaction's node shares the cache's cells; on a miss
-  the node is unmarshalled (L2 bytes or blob: FRESH cells) and then `SetNode` clones it into L1 — so
-  the cells of the first reader ARE the cache's cells;
-* `read k kind` = `Find` + `GetCurrentValue`, which returns `*item.Value`: for a reference kind
-  (`[]byte`, `map`, `[]int`, `*struct`) the caller gets the same backing cells (`ret = some a`), for a
-  value kind (`string`, plain struct) a private copy (`ret = none`: nothing modelled can reach it).
-  In a `vnf` store (actively persisted, not globally cached) the value is fetched by `tracker.Get`
-  (`Unmarshal`: a fresh cell) and hung on the transaction's own slot only; moving the cursor to another
-  key un-fetches it (`unfetchCurrentValue`), `Find` of the key the cursor is on does not (fast path):
-  `cur` is the key the cursor is on together with its fetched cell;
+* a value is an ADDRESS; `heap` maps value addresses to contents (an abstract number);
+* a `*btree.Node` is an ADDRESS too; `nodes` maps node addresses to their slot arrays: key ↦ value pointer
+  (`none`: `Value = nil, ValueNeedsFetch = true`).  One store whose items all sit in one node;
+* `disk` is the node blob (key ↦ content) — or, for a store whose values really live in value blobs (`vnf`:
+  actively persisted, not globally cached, every item updated once), the value blobs;
+* the three-level lookup of `nodeRepositoryBackend.get` (first touch of the node in a transaction):
+  1. `l1 = some (a, true)`: the process-wide L1 MRU holds node object `a` under the handle's current version — a hit
+     (through the L1 `Handles` entry `l1h`, or after `registry.Get`: the same handle in a single-process history).
+     `materializeCacheValue` = `a.CopyTo(target)`: a NEW node object whose slot structs are copies — the value
+     pointers are shared with the cache's node;
+  2. else `l2 = some (snapshot, vok)`: the L2 cache holds the marshalled node: `GetStruct` unmarshals it into the
+     target (a new node object, FRESH value cells) and `SetNodeToMRU(target)` stores `CloneMetaData()` — ANOTHER
+     new node object sharing the value cells — under the version found IN the payload: `vok` says whether that is
+     the handle's version (true for a payload written after a blob load, false for the payload a committing writer
+     writes, because it marshals the node before the version is bumped: such an L1 entry never hits);
+     `uncloned = true` is the variant in which this fill stores the target itself (the seeded defect of the
+     mutation trial, NOT the code): L1 entry and transaction node are then one object;
+  3. else the blob: unmarshal (new node object, fresh cells), `SetNode`: a clone into L1 and the payload into L2,
+     both under the handle's version;
+* `read k kind` = `Find` + `GetCurrentValue`, which returns `*item.Value`: for a reference kind (`[]byte`, `map`,
+  `[]int`, `*struct`) the caller gets the same backing cells (`ret = some a`), for a value kind (`string`, plain
+  struct) a private copy (`ret = none`: nothing modelled can reach it).  In a `vnf` store a slot without value is
+  fetched by `tracker.Get` (`Unmarshal`: a fresh cell) and HUNG ON THE SLOT of the transaction's node; moving
+  the cursor to another key un-fetches it (`unfetchCurrentValue`), `Find` of the key the cursor is on does not
+  (fast path): `cur` is the key the cursor is on;
 * `mutate x`: the caller writes through what the last `read` returned (it may keep that reference for as long as
   it likes, also after its transaction ended);
-* `update k v` (`UpdateCurrentItem`): the slot gets a pointer to a fresh cell; the node is dirty;
-* `commit`: a dirty node is marshalled AS IT IS (every in-node cell it references, also cells it merely
-  shares with the cache) and `populateMru` clones it into L1; `rollback` just drops the transaction;
-* `clear`: the L1/L2 caches are gone (process restart).
+* `update k v` (`UpdateCurrentItem`): the slot of the transaction's node gets a pointer to a fresh cell; the node is
+  dirty;
+* `commit`: a dirty node is marshalled AS IT IS (every in-node cell it references, also cells it merely shares with
+  the cache) to the blob and to L2 (with the version it was read under: `vok = false`), `populateMru` clones it
+  into L1 under the new version, the registry write fills `l1h`; `rollback` just drops the transaction;
+* `clear`: the L1/L2 caches are gone (process restart); `evict1`: the L1 node MRU lost the entry (cache pressure),
+  `evicth`: the L1 `Handles` cache lost its entry, `evict2`: the L2 cache lost everything (Redis eviction/restart);
+* `cold k`: another, freshly started process reads key `k` (its caches are its own: it sees the durable content).
 -/
 namespace Sop.Alias
 
@@ -36,42 +48,90 @@ inductive Kind | byRef | byValue
 deriving DecidableEq, Repr, Inhabited
 
 abbrev Heap := List (Nat × Nat)
-abbrev Node := List (Nat × Nat)   -- key ↦ address
-abbrev Disk := List (Nat × Nat)   -- key ↦ content
+abbrev Node := List (Nat × Option Nat)   -- key ↦ value pointer
+abbrev Nodes := List (Nat × Node)
+abbrev Disk := List (Nat × Nat)          -- key ↦ content
 
 def get : List (Nat × Nat) → Nat → Option Nat
   | [], _ => none
   | e :: rest, a => if e.1 = a then some e.2 else get rest a
 
+def getNode : Nodes → Nat → Node
+  | [], _ => []
+  | e :: rest, a => if e.1 = a then e.2 else getNode rest a
+
+def getSlot : Node → Nat → Option (Option Nat)
+  | [], _ => none
+  | e :: rest, k => if e.1 = k then some e.2 else getSlot rest k
+
+def setSlot (n : Node) (k : Nat) (v : Option Nat) : Node := n.map (fun e => if e.1 = k then (k, v) else e)
+
+/-- the slot array after the cursor moved from key `cur` to key `k` (`unfetchCurrentValue` on the slot it leaves) -/
+def unfetched (n : Node) (cur : Option Nat) (k : Nat) : Node :=
+  match cur with
+  | some k' => if k' = k then n else setSlot n k' none
+  | none => n
+
 structure Txn where
-  node : Option Node := none     -- the node as this transaction holds it (none: not loaded yet)
+  node : Option Nat := none      -- the node object this transaction works on (none: not loaded yet)
   dirty : Bool := false
-  cur : Option (Nat × Nat) := none   -- vnf store: (key under the cursor, its fetched cell)
+  cur : Option Nat := none       -- vnf store: the key under the cursor
 deriving Repr, Inhabited
 
 structure St where
   vnf : Bool                       -- values live in value blobs (fetched per read), not in the node
   disk : Disk
   heap : Heap := []
-  next : Nat := 0
-  l1 : Option Node := none
+  nodes : Nodes := []
+  next : Nat := 0                  -- fresh addresses (value cells and node objects)
+  l1 : Option (Nat × Bool) := none   -- L1 MRU entry: node object, stored under the handle's current version?
+  l1h : Bool := false                -- L1 Handles entry present
+  l2 : Option (Disk × Bool) := none  -- L2 payload: marshalled contents, carries the handle's current version?
   txn : Option Txn := none
   ret : Option Nat := none         -- address handed to the caller by the last read (none: a private copy)
+  uncloned : Bool := false         -- the L2-hit fill stores the target itself (seeded variant, not the code)
 deriving Repr, Inhabited
 
-/-- unmarshal: one fresh cell per item -/
-def alloc (d : Disk) (heap : Heap) (next : Nat) : Node × Heap × Nat :=
-  d.foldl (fun (acc : Node × Heap × Nat) e => (acc.1 ++ [(e.1, acc.2.2)], (acc.2.2, e.2) :: acc.2.1, acc.2.2 + 1)) ([], heap, next)
+/-- unmarshal the items of a node whose values are in the node: one fresh cell per item -/
+def unmarshalCells : Disk → Heap → Nat → Node × Heap × Nat
+  | [], heap, next => ([], heap, next)
+  | e :: rest, heap, next =>
+    let r := unmarshalCells rest ((next, e.2) :: heap) (next + 1)
+    ((e.1, some next) :: r.1, r.2.1, r.2.2)
 
-/-- `nodeRepositoryBackend.get` for the store's node -/
-def St.load (s : St) : St × Node :=
+/-- unmarshal a node (in a `vnf` store the slots carry no value) -/
+def unmarshal (vnf : Bool) (d : Disk) (heap : Heap) (next : Nat) : Node × Heap × Nat :=
+  if vnf then (d.map (fun e => (e.1, none)), heap, next) else unmarshalCells d heap next
+
+/-- marshal a node as it is -/
+def marshal (heap : Heap) (n : Node) : Disk :=
+  n.filterMap (fun e => (e.2.bind (get heap)).map (fun c => (e.1, c)))
+
+/-- a new node object with the given slots -/
+def St.newNode (s : St) (n : Node) : St × Nat :=
+  ({ s with nodes := (s.next, n) :: s.nodes, next := s.next + 1 }, s.next)
+
+/-- `CopyTo` into a fresh target / `CloneMetaData`: new slot structs, same value pointers -/
+def St.clone (s : St) (a : Nat) : St × Nat := s.newNode (getNode s.nodes a)
+
+/-- `nodeRepositoryBackend.get` for the store's node: the node object the transaction gets -/
+def St.load (s : St) : St × Nat :=
   match s.l1 with
-  | some n => (s, n)                                   -- CopyTo: same cells
-  | none =>
-    if s.vnf then ({ s with l1 := some [] }, [])       -- slots carry no value
-    else
-      let (n, h, nx) := alloc s.disk s.heap s.next
-      ({ s with heap := h, next := nx, l1 := some n }, n)   -- SetNode: the clone shares the cells
+  | some (a, true) => s.clone a
+  | _ =>
+    match s.l2 with
+    | some (snap, vok) =>
+      let (n, h, nx) := unmarshal s.vnf snap s.heap s.next
+      let (s1, t) := St.newNode { s with heap := h, next := nx } n
+      if s.uncloned then ({ s1 with l1 := some (t, vok) }, t)
+      else
+        let (s2, c) := s1.clone t
+        ({ s2 with l1 := some (c, vok) }, t)
+    | none =>
+      let (n, h, nx) := unmarshal s.vnf s.disk s.heap s.next
+      let (s1, t) := St.newNode { s with heap := h, next := nx } n
+      let (s2, c) := s1.clone t
+      ({ s2 with l1 := some (c, true), l2 := some (s.disk, true) }, t)
 
 inductive Op
   | begin
@@ -81,24 +141,19 @@ inductive Op
   | commit
   | rollback
   | clear
+  | evict1
+  | evicth
+  | evict2
+  | cold (k : Nat)
 deriving DecidableEq, Repr, Inhabited
 
-def setAddr (n : Node) (k a : Nat) : Node := n.map (fun e => if e.1 = k then (k, a) else e)
-
 /-- the transaction's node, loading it on first use -/
-def St.node (s : St) (t : Txn) : St × Node :=
+def St.node (s : St) (t : Txn) : St × Nat :=
   match t.node with
-  | some n => (s, n)
+  | some a => (s, a)
   | none => s.load
 
-/-- `tracker.Get` on an item whose value must be fetched: unmarshal into a fresh cell -/
-def fetch (s1 : St) (t : Txn) (n : Node) (k : Nat) (kind : Kind) : St × Option Nat :=
-  match get s1.disk k with
-  | some c =>
-    let a := s1.next
-    ({ s1 with heap := (a, c) :: s1.heap, next := a + 1, txn := some { t with node := some n, cur := some (k, a) },
-               ret := (if kind = .byRef then some a else none) }, some c)
-  | none => ({ s1 with txn := some { t with node := some n, cur := none }, ret := none }, none)
+def retOf (kind : Kind) (c : Nat) : Option Nat := if kind = .byRef then some c else none
 
 /-- one step; the output is what a `read` returned (its content) -/
 def St.apply (s : St) : Op → St × Option Nat
@@ -107,18 +162,23 @@ def St.apply (s : St) : Op → St × Option Nat
     match s.txn with
     | none => (s, none)
     | some t =>
-      let (s1, n) := s.node t
-      if s1.vnf then
-        match t.cur with
-        | some (k', a) =>
-          if k' = k then
-            ({ s1 with txn := some { t with node := some n }, ret := (if kind = .byRef then some a else none) }, get s1.heap a)
-          else fetch s1 t n k kind
-        | none => fetch s1 t n k kind
-      else
-        match get n k with
-        | some a => ({ s1 with txn := some { t with node := some n }, ret := (if kind = .byRef then some a else none) }, get s1.heap a)
-        | none => ({ s1 with txn := some { t with node := some n }, ret := none }, none)
+      let (s1, a) := s.node t
+      let n := getNode s1.nodes a
+      -- moving the cursor un-fetches the value hung on the slot it leaves
+      let n1 := if s1.vnf then unfetched n t.cur k else n
+      match getSlot n1 k with
+      | some (some c) =>
+        ({ s1 with nodes := (a, n1) :: s1.nodes, txn := some { t with node := some a, cur := some k }, ret := retOf kind c },
+         get s1.heap c)
+      | some none =>
+        -- `tracker.Get` on an item whose value must be fetched: unmarshal into a fresh cell, hang it on the slot
+        match (if s1.vnf then get s1.disk k else none) with
+        | some x =>
+          let c := s1.next
+          ({ s1 with heap := (c, x) :: s1.heap, next := c + 1, nodes := (a, setSlot n1 k (some c)) :: s1.nodes,
+                     txn := some { t with node := some a, cur := some k }, ret := retOf kind c }, some x)
+        | none => ({ s1 with nodes := (a, n1) :: s1.nodes, txn := some { t with node := some a, cur := none }, ret := none }, none)
+      | none => ({ s1 with nodes := (a, n1) :: s1.nodes, txn := some { t with node := some a, cur := none }, ret := none }, none)
   | .mutate x =>
     match s.ret with
     | some a => ({ s with heap := (a, x) :: s.heap }, none)
@@ -128,20 +188,27 @@ def St.apply (s : St) : Op → St × Option Nat
     | none => (s, none)
     | some t =>
       if s.vnf then (s, none) else
-      let (s1, n) := s.node t
-      let a := s1.next
-      ({ s1 with heap := (a, v) :: s1.heap, next := a + 1, txn := some { t with node := some (setAddr n k a), dirty := true } }, none)
+      let (s1, a) := s.node t
+      let c := s1.next
+      ({ s1 with heap := (c, v) :: s1.heap, next := c + 1, nodes := (a, setSlot (getNode s1.nodes a) k (some c)) :: s1.nodes,
+                 txn := some { t with node := some a, dirty := true } }, none)
   | .commit =>
     match s.txn with
     | none => (s, none)
     | some t =>
       match t.node, t.dirty with
-      | some n, true =>
-        -- marshal the node as it is; populateMru clones it into L1
-        ({ s with disk := n.filterMap (fun e => (get s.heap e.2).map (fun c => (e.1, c))), l1 := some n, txn := none }, none)
+      | some a, true =>
+        -- marshal the node as it is (blob and L2 payload); populateMru clones it into L1
+        let d := marshal s.heap (getNode s.nodes a)
+        let (s1, c) := s.clone a
+        ({ s1 with disk := d, l2 := some (d, false), l1 := some (c, true), l1h := true, txn := none }, none)
       | _, _ => ({ s with txn := none }, none)
   | .rollback => ({ s with txn := none }, none)
-  | .clear => ({ s with l1 := none }, none)
+  | .clear => ({ s with l1 := none, l1h := false, l2 := none }, none)
+  | .evict1 => ({ s with l1 := none }, none)
+  | .evicth => ({ s with l1h := false }, none)
+  | .evict2 => ({ s with l2 := none }, none)
+  | .cold k => (s, get s.disk k)
 
 def runFrom (s : St) : List Op → St × List (Option Nat)
   | [] => (s, [])
